@@ -92,7 +92,7 @@ def _trackbox(j):
     return Adt('Universal2DBox', 0, (f32(float(200 + j)), f32(0.0), NONE, f32(1.0), f32(1.0), f32(1.0), NONE))
 
 
-def mk_step(ndet, nstored, shards=1, aw_zero=False):
+def mk_step(ndet, nstored, shards=1, aw_zero=False, lite=False):
     def q(vm, P):
         fn = P.impl_methods[('Sort', None, 'predict_with_scene')][0][0]
         scene = vm.fresh(64, 'scene')
@@ -101,14 +101,14 @@ def mk_step(ndet, nstored, shards=1, aw_zero=False):
         vm.assume(other_scene.e != scene.e)
         ep_s, ep_o = vm.fresh(64, 'epoch_scene'), vm.fresh(64, 'epoch_other')
         vm.assume(z3.And(z3.ULT(ep_s.e, 2 ** 40), z3.ULT(ep_o.e, 2 ** 40)))
-        scene_known = vm.choose_n(2, "scene already in the epoch db") == 0
+        scene_known = lite or vm.choose_n(2, "scene already in the epoch db") == 0
         ents = ([(scene, ep_s)] if scene_known else []) + [(other_scene, ep_o)]
         cur = ep_s.e if scene_known else z3.BitVecVal(0, 64)
         max_idle = vm.fresh(64, 'max_idle')
         vm.assume(z3.ULT(max_idle.e, 2 ** 40))
         hist = 2
         opts = Cell(sort_options(P, vm, ents, max_idle, history_length=usize(hist)), 'opts')
-        thr = grid_f32(vm, 'iou_threshold', [0.25, 0.5])
+        thr = grid_f32(vm, 'iou_threshold', [0.25] if lite else [0.25, 0.5])
         method = variant(P, 'PositionalMetricType', 'IoU', thr)
         minc = f32(0.5)
         metric = mk(P, 'SortMetric', method=method, min_confidence=minc)
@@ -121,7 +121,7 @@ def mk_step(ndet, nstored, shards=1, aw_zero=False):
             tid = vm.fresh(64, 'track%d_id' % j)
             vm.assume(z3.And([tid.e != 0] + [tid.e != o.e for o in ids]))
             ids.append(tid)
-            same_scene = vm.choose_n(2, "track %d in the call's scene" % j) == 0
+            same_scene = lite or vm.choose_n(2, "track %d in the call's scene" % j) == 0
             tscene = scene if same_scene else other_scene
             last = vm.fresh(64, 'track%d_last' % j)
             vm.assume(z3.ULE(last.e, ep_s.e if (same_scene and scene_known) else (z3.BitVecVal(0, 64) if same_scene else ep_o.e)))
@@ -165,8 +165,8 @@ def mk_step(ndet, nstored, shards=1, aw_zero=False):
         # ---- detections
         dets, dinfo = [], []
         for i in range(ndet):
-            conf = grid_f32(vm, 'det%d_conf' % i, CONF)
-            has_cid = vm.choose_n(2, "custom id given") == 0
+            conf = grid_f32(vm, 'det%d_conf' % i, [1.0] if lite else CONF)
+            has_cid = lite or vm.choose_n(2, "custom id given") == 0
             cid = vm.fresh(64, 'det%d_custom' % i, signed=True)
             dets.append((_detbox(i, conf), SOME(cid) if has_cid else NONE))
             dinfo.append(dict(conf=conf, cid=cid if has_cid else None))
@@ -175,7 +175,7 @@ def mk_step(ndet, nstored, shards=1, aw_zero=False):
             for j in range(nstored):
                 far[(i, j)] = vm.fresh('bool', 'too_far_%d_%d' % (i, j))
                 overlap = vm.choose_n(2, "boxes overlap") == 0
-                iou[(i, j)] = SOME(grid_f32(vm, 'iou_%d_%d' % (i, j), IOUGRID)) if overlap else NONE
+                iou[(i, j)] = SOME(grid_f32(vm, 'iou_%d_%d' % (i, j), [0.125, 0.5, 0.75] if lite else IOUGRID)) if overlap else NONE
         vm.notes.update(far=far, iou=iou, ndet=ndet, nstored=nstored)
         arg = Ref(Cell(VecV(tuple(dets), 'slice'), 'bboxes'))
         r = vm.exec_fn(fn, [Ref(sort), scene, arg], {})
@@ -346,8 +346,9 @@ FUNCS = [S, "similari::track::store::TrackStore::{new_track, foreign_track_dista
 
 def step_queries():
     out = []
-    for (nd, ns, sh, tier) in [(0, 1, 1, 'quick'), (1, 0, 1, 'quick'), (1, 1, 1, 'quick'), (2, 1, 1, 'quick'), (1, 2, 1, 'quick'), (2, 2, 1, 'thorough'), (2, 1, 2, 'thorough')]:
-        out.append(MQ("step_sort_d%d_t%d_s%d" % (nd, ns, sh), tier, mk_step(nd, ns, sh),
+    for (nd, ns, sh, tier, lite) in [(0, 1, 1, 'quick', False), (1, 0, 1, 'quick', False), (1, 1, 1, 'quick', False), (2, 1, 1, 'quick', False), (1, 2, 1, 'quick', False),
+                                     (2, 2, 1, 'thorough', True), (2, 1, 2, 'thorough', False)]:
+        out.append(MQ("step_sort_d%d_t%d_s%d" % (nd, ns, sh), tier, mk_step(nd, ns, sh, lite=lite),
                       "one Sort::predict_with_scene call from an arbitrary valid tracker state: one record per detection in order echoing box / custom id / scene / new epoch; "
                       "continuations only within the scene, through the gate, unexpired, maximum-weight one-to-one; new ids = counter + k; lengths; untouched tracks unchanged; only this scene's epoch advances",
                       "%d detections, %d stored tracks (scene, epoch, length, ids symbolic), %d shard(s); IoU mode; too_far / IoU values / Kalman prediction uninterpreted" % (nd, ns, sh),
